@@ -365,6 +365,13 @@ theorem exec_gov {nt : Nat} (s : St) (op : Op) (hm : MInv nt s) (h : GMInv s) : 
     · split
       · exact h.throw
       · exact h.done _ _ (unblockAccount_frame _ _)
+  | designate nodes caller =>
+    simp only [exec]
+    split
+    · exact h
+    · cases hs : designateNotary s.env s.cur nodes (witCommittee s.env s.cur caller s.env.desigC) with
+      | none => exact h.throw
+      | some l => exact h.done l .null (designateNotary_frame _ _ _ _ _ hs)
 
 theorem step_gov {nt : Nat} (s : St) (op : Op) (hm : MInv nt s) (h : GMInv s) : GMInv (step s op) := by
   unfold step
